@@ -94,25 +94,46 @@ Print Assumptions C02_engine_sound.
    extractor regexes on the text at hand, which the harness checks on every recorded call / token ---- *)
 From EV Require Import Model.Extract Model.E2E Model.RefEngine Model.E2EClosed Proofs.ClosedProofs Proofs.ClosedCorollaries.
 
-(* premises left: the short-form page suffix (extractor regexes), and of the contract search_ok only its two
-   clauses that are not (yet) decided by a kernel-run analysis of the ASTs: `$`-anchored backward matches end at the
-   window end (the engine theorem gives "or just before a final newline"), and the parenthetical is the last group
-   of the post-citation match.  Everything else -- match-object well-formedness, forward matches start at 0, the
-   pin-cite group starts at 0, the short-form antecedent is always captured, POST_SHORT always matches -- is proved
-   for the engine on the regenerated ASTs (Proofs/SearchDischarge.v: soundness of the engine w.r.t. a declarative
-   semantics WITH captures, Regex/DeclCap.v, and verified static analyses run by the kernel) *)
-From EV Require Import Proofs.SearchDischarge.
+(* premises left:
+   - search_residual2: a `$`-anchored backward match ends at the window end (the engine theorem gives "or just before
+     a final newline");
+   - odd_short_rows_silent s: the text has no short-form citation of the 11 reporters whose short-form pattern puts
+     text AFTER the page group inside the token ("19 CO at 12M", "... at 5 (6th Cir.)"): for those the premise
+     "the token ends with its page" of the offset proof is FALSE (C02_short_page_refuted below) -- the implementation's
+     spans are still right on them (D1 clamp), which the harness observes but no theorem covers.
+   Everything else -- match-object well-formedness, forward matches start at 0, the pin-cite group starts at 0, the
+   short-form antecedent is always captured, POST_SHORT always matches, the parenthetical is the last group of the
+   post-citation match, every other short-form token ends with its page group -- is proved for the engine on the
+   regenerated ASTs (Proofs/SearchDischarge.v, SearchDischarge2.v, ShortPage.v: soundness of the engine w.r.t. a
+   declarative semantics WITH captures, Regex/DeclCap.v, and verified static analyses run by the kernel) *)
+From EV Require Import Proofs.SearchDischarge Proofs.ShortPage Proofs.SearchDischarge2.
 
 Theorem C02_closed_offsets : forall this_year s ra l,
-  s <> s_eyecite -> short_page_ok s -> search_residual (engine_search UM meta_table) ->
+  s <> s_eyecite -> odd_short_rows_silent s -> search_residual2 (engine_search UM meta_table) ->
   get_citations_closed this_year s ra = Ok l ->
   Forall (offsets_ok s) l.
-Proof. exact closed_offsets''. Qed.
+Proof. exact closed_offsets4. Qed.
 Print Assumptions C02_closed_offsets.
 
-Theorem C02_engine_contract : search_residual (engine_search UM meta_table) ->
+(* the premise "a short-form token ends with its page group" fails on the text "19 CO at 12M" *)
+Theorem C02_short_page_refuted : ~ short_page_ok s_19_CO_at_12M.
+Proof. exact short_page_counterexample. Qed.
+Print Assumptions C02_short_page_refuted.
+
+Theorem C02_short_page_elsewhere : forall s, odd_short_rows_silent s -> short_page_ok s.
+Proof. exact short_page_ok_of_silent. Qed.
+Print Assumptions C02_short_page_elsewhere.
+
+Theorem C02_engine_parenthetical_last : forall w m, engine_search UM meta_table PPostFull w = Some m ->
+  forall a b, gspan g_parenthetical (m_groups m) = Some (a, b) ->
+    (b < m_end m)%nat /\
+    forall k x y, In (k, Some (x, y)) (m_groups m) -> str_eqb k g_parenthetical = false -> (y <= a)%nat.
+Proof. exact E_parenthetical_last. Qed.
+Print Assumptions C02_engine_parenthetical_last.
+
+Theorem C02_engine_contract : search_residual2 (engine_search UM meta_table) ->
   search_ok (engine_search UM meta_table).
-Proof. exact search_ok_of_residual. Qed.
+Proof. exact search_ok_of_residual2. Qed.
 Print Assumptions C02_engine_contract.
 
 Theorem C02_engine_pin_at_start : forall p w m, fwd_pat p = true ->
